@@ -80,3 +80,39 @@ func H_C05_ProofOfWork() {
 		zzverif.Reach("meets-target")
 	}
 }
+
+// ref_get_compact: arith_uint256::GetCompact(false) for a non-negative value
+func ref_get_compact(v *big.Int) uint32 {
+	size := (v.BitLen() + 7) / 8
+	var compact uint64
+	if size <= 3 {
+		compact = v.Uint64() << uint(8*(3-size))
+	} else {
+		compact = new(big.Int).Rsh(v, uint(8*(size-3))).Uint64()
+	}
+	if compact&0x00800000 != 0 {
+		compact >>= 8
+		size++
+	}
+	return uint32(compact) | uint32(size)<<24
+}
+
+// C05: compact target encoding: for every non-negative value of up to 32 bytes (byte length case-split, the three
+// leading bytes and everything below arbitrary) GetCompact equals arith_uint256::GetCompact.
+func H_C05_CompactEncode() {
+	zzverif.IntMode()
+	n := zzverif.Len("bytes", 0, 32)
+	if zzverif.Tier() == 0 && n > 5 && n < 26 && n != 16 {
+		zzverif.Assume(false)
+	}
+	raw := zzverif.Bytes("value", n)
+	if n > 0 {
+		zzverif.Assume(raw[0] != 0)
+	}
+	v := new(big.Int).SetBytes(raw)
+	got := GetCompact(v)
+	zzverif.Assert("C05.compact.encode", got == ref_get_compact(v))
+	if n == 32 {
+		zzverif.Reach("full-width")
+	}
+}
